@@ -161,11 +161,13 @@ func (b *Builder) ExportFunc(name string) *UnexportedFuncMocker {
 func (b *Builder) Var(v interface{}) VarMock {
 	cacheKey := fmt.Sprintf("var_%d", reflect.ValueOf(v).Pointer())
 	if mocker, ok := b.mockers[cacheKey]; ok && !mocker.Canceled() {
+		b.reset2CurPkg()
 		return mocker.(VarMock)
 	}
 
 	mocker := NewVarMocker(v)
 	b.cache(cacheKey, mocker)
+	b.reset2CurPkg()
 	return mocker
 }
 
@@ -180,11 +182,13 @@ func (b *Builder) Var(v interface{}) VarMock {
 func (b *Builder) UnExportedVar(path string) UnExportedVarMock {
 	cacheKey := fmt.Sprintf("ue_var_%s", path)
 	if mocker, ok := b.mockers[cacheKey]; ok && !mocker.Canceled() {
+		b.reset2CurPkg()
 		return mocker.(UnExportedVarMock)
 	}
 
 	mocker := NewUnExportedVarMocker(path)
 	b.cache(cacheKey, mocker)
+	b.reset2CurPkg()
 	return mocker
 }
 
